@@ -258,13 +258,13 @@ func buildSel(list []shardJ, order []int) (sharding.ShardSelector, error) {
 }
 
 type selStats struct {
-	evals, nontrivial                                  int64
-	removedChosen, removedOther, addTook, addKept      int64
-	topTies                                            int64
-	refAgree, refTotal                                 int64
-	outcomes                                           map[uint32]struct{}
-	getShardCalls                                      int64
-	permCompared                                       int64
+	evals, nontrivial                             int64
+	removedChosen, removedOther, addTook, addKept int64
+	topTies                                       int64
+	refAgree, refTotal                            int64
+	outcomes                                      map[uint32]struct{}
+	getShardCalls                                 int64
+	permCompared                                  int64
 }
 
 // checkMapHash evaluates every relation for (m, h). lookup returns the
@@ -579,21 +579,21 @@ func runSelector(r *ev.Run) {
 	sub.Exhaustive = true
 	sub.BoundCompleted = fmt.Sprintf("<=%d shards", maxK)
 	sub.Extra = map[string]any{
-		"shard_maps":                          len(work),
-		"ordered_shard_lists":                 nperm,
-		"hashes":                              len(H),
-		"hashes_generic":                      nGeneric,
-		"hashes_preimages":                    nPre,
-		"hashes_ties":                         nTie,
-		"tie_hashes_per_weight_pair":          tiePairs,
-		"cases_with_tied_top_score":           tot.topTies,
-		"getshard_calls":                      tot.getShardCalls,
-		"permutation_comparisons":             tot.permCompared,
-		"removals_of_selected_shard":          tot.removedChosen,
-		"removals_of_other_shard_checked":     tot.removedOther,
-		"additions_taking_over":               tot.addTook,
-		"additions_keeping_previous":          tot.addKept,
-		"harness_reference_model_agreement":   fmt.Sprintf("%d/%d", tot.refAgree, tot.refTotal),
+		"shard_maps":                        len(work),
+		"ordered_shard_lists":               nperm,
+		"hashes":                            len(H),
+		"hashes_generic":                    nGeneric,
+		"hashes_preimages":                  nPre,
+		"hashes_ties":                       nTie,
+		"tie_hashes_per_weight_pair":        tiePairs,
+		"cases_with_tied_top_score":         tot.topTies,
+		"getshard_calls":                    tot.getShardCalls,
+		"permutation_comparisons":           tot.permCompared,
+		"removals_of_selected_shard":        tot.removedChosen,
+		"removals_of_other_shard_checked":   tot.removedOther,
+		"additions_taking_over":             tot.addTook,
+		"additions_keeping_previous":        tot.addKept,
+		"harness_reference_model_agreement": fmt.Sprintf("%d/%d", tot.refAgree, tot.refTotal),
 	}
 	if tot.refAgree != tot.refTotal {
 		r.Note(fmt.Sprintf("selector: the harness copy of the mixing/score (used only to aim hashes at table boundaries and ties) agrees with the real GetShard on %d of %d cases; the pre-image and tie hashes are aimed correctly only if this is 100%%", tot.refAgree, tot.refTotal))
